@@ -1,7 +1,7 @@
-\* exhaustive: duplicates under several spellings, landmarks in the input, ../ ./ spellings, a missing path
+\* exhaustive: files and a directory recorded twice (other spelling / other content), ../ ./ spellings, a missing path
 CONSTANTS
-    UseEntries = {3, 5, 8, 9, 10, 12}
-    PrioAlphabet = {"a/b", "./a/b", "../d", ".prefetch.landmark", "x"}
+    UseEntries = {2, 3, 5, 8, 12, 16}
+    PrioAlphabet = {"a/b", "./a/b", "../d", "a/", "x"}
     MaxTar = 3
     MaxPrio = 2
     WithLayout = FALSE
@@ -17,6 +17,7 @@ CONSTANTS
     DropInputLandmarks = TRUE
     LastDupWins = TRUE
     LandmarkOwnStream = TRUE
+    VisitingIsPath = TRUE
 INIT Init
 NEXT Next
 INVARIANTS ExactlyOneLandmark EachAtMostOnce NothingLostOrDuplicated PrioritizedFirstInOrder ParentsAndTargetsBefore RestKeepsRelativeOrder MissingAbortsOrIsReported ImportIsEff
